@@ -190,6 +190,11 @@ func c10Run(c c10Case, short int) error {
 				rd = rom.BusReader(addr)
 			}
 			if eof {
+				// a reader that reported EOF stays at EOF
+				buf := make([]byte, op.N)
+				if n, e := rd.Read(buf); n != 0 || (e != io.EOF && !(op.N == 0 && e == nil)) {
+					return fmt.Errorf("op %d: reader at $%06X had reported EOF; another Read into %d bytes returned (%d, %v)", i, addr, op.N, n, e)
+				}
 				continue
 			}
 			buf := make([]byte, op.N)
@@ -377,7 +382,10 @@ func c10Gen(t *rapid.T) c10Case {
 			// write; length solved against the remaining window
 			rem := L - o
 			var n int
-			switch rapid.IntRange(0, 5).Draw(t, "len-kind") {
+			switch rapid.IntRange(0, 6).Draw(t, "len-kind") {
+			case 6:
+				// lengths that do not fit 16 bits (the window never holds that much: the write must be refused)
+				n = rapid.SampledFrom([]int{0x10000, 0x10001, 0x10000 + rem, 0x10000 + rem - 1, 0x17fff, 0x20000, 0x10000 + 3}).Draw(t, "huge")
 			case 0:
 				n = rem - 1
 			case 1:
@@ -447,6 +455,9 @@ func TestC10(t *testing.T) {
 					L = 0x10000 - int(c.Off)
 				}
 				for _, op := range c.Ops {
+					if op.N >= 0x10000 {
+						ev.Class("write-of-64KiB-or-more")
+					}
 					if op.Kind == "alias" {
 						ev.Class("written-slice-overlaps-its-destination-in-the-image")
 					}
